@@ -106,10 +106,12 @@ def step (d : DSt) (args : List String) : DSt × String :=
     match parseNat? t, parseNat? ch, parseOptAddrStr? cl, parseInt? g, parseNat? c with
     | some t, some ch, some cl, some g, some c => apply d t (.sale ch cl g c t)
     | _, _, _, _, _ => (d, "bad-op")
-  | ["activate", t, sg, cr, stop] =>
-    match parseNat? t, parseNat? sg, parseAddrStr? cr, parseNat? stop with
-    | some t, some sg, some cr, some stop => apply d t (.activate sg cr stop t)
-    | _, _, _, _ => (d, "bad-op")
+  | ["activate", t, sg, cr] =>
+    -- the end of the vesting period is computed by the MODEL (`addMonths t licence.months`) and shows up in
+    -- the account column `v:orig:denom:start:end`, where it is compared with the stored `EndTime`
+    match parseNat? t, parseNat? sg, parseAddrStr? cr with
+    | some t, some sg, some cr => apply d t (.activate sg cr t)
+    | _, _, _ => (d, "bad-op")
   | ["auth", t, sg, cr] =>
     match parseNat? t, parseNat? sg, parseAddrStr? cr with
     | some t, some sg, some cr => apply d t (.auth sg cr)
